@@ -203,31 +203,23 @@ def hops : Nat → String → Request → Request
 inductive Framing | contentLength | chunked | closeDelimited
 deriving Repr, DecidableEq
 
+/-- what the client observes of a response -/
+inductive ClientView | complete | aborted
+deriving Repr, DecidableEq
+
 /-- The upstream dies after the response header, in the middle of the body.  The reverse proxy
-panics with `http.ErrAbortHandler` so that net/http aborts the client connection; but the
-handler runs under `gin.CustomRecoveryWithWriter(nil, s.panicRoute)`, which recovers the
-panic, and the handler then returns normally.  With `Content-Length` framing the client still
-sees a short body (unexpected EOF); with chunked framing net/http writes the final chunk and
-the client receives a well-terminated, truncated body (finding `truncated-as-complete`).
-Returns whether the client can detect the truncation. -/
-def truncationDetectable : Framing → Bool
-  | .contentLength => true
-  | _ => false
+panics with `http.ErrAbortHandler`; `panicRoute` (the handler of
+`gin.CustomRecoveryWithWriter`) re-panics exactly that value (fix 6abbcc4), so net/http aborts
+the client connection: whatever the framing, the client sees an unterminated response (or no
+response at all when nothing had been flushed yet), never a well-terminated shorter body. -/
+def onUpstreamDeathMidBody (_ : Framing) : ClientView := .aborted
 
-/-- gin's `serveError` for the `NoRoute` chain, under which piko registers the proxy handler:
-status 404 is pre-set, and if after the handlers nothing has been written and the status is
-still 404, `Content-Type` is overwritten with `text/plain` (finding
-`notfound-content-type-rewritten`).  Nothing has been written exactly when the upstream's body
-is empty and of known length (`Content-Length: 0`, or a HEAD request): streamed responses are
-flushed by the reverse proxy at once. -/
-def ginNoRouteRewrites (status : Nat) (knownEmptyBody : Bool) : Bool := status == 404 && knownEmptyBody
-
-/-- what the client can be expected to see of the upstream's response headers -/
-def visibleResp (status : Nat) (knownEmptyBody : Bool) (h : Headers) : Headers :=
-  let h' := (removeHopByHop h).filter fun p => p.1 ≠ "Content-Length"
-  if ginNoRouteRewrites status knownEmptyBody then
-    h'.filter (fun p => p.1 ≠ "Content-Type") ++ [("Content-Type", "text/plain")]
-  else h'
+/-- what the client can be expected to see of the upstream's response headers.  The proxy
+handler is gin's `NoRoute` handler; it calls `c.Writer.WriteHeaderNow()` after the reverse proxy
+returns (fix 694d302), so gin's `serveError` never replaces an upstream 404 that has no body:
+the rule is the same for every status. -/
+def visibleResp (h : Headers) : Headers :=
+  (removeHopByHop h).filter fun p => p.1 ≠ "Content-Length"
 
 end Http
 end Piko
